@@ -84,6 +84,21 @@ func expandC20(_ *testing.T, seed uint64, tier string) []*core.Plan {
 	}
 	if r.Chance(1, 10) {
 		p.Items = nil // silence: the connect timeout must close the connection
+	} else if seed%2 == 0 && r.Chance(1, 10) {
+		// the backend fails while the connection is being set up: Setup (no
+		// CONNACK yet) or Restore (the accepting CONNACK is already out)
+		p.SetKnob("bkfail", r.Pick(1, 2))
+	} else if seed%2 == 0 && r.Chance(1, 8) {
+		// the peer sends its requests in one burst and reads nothing meanwhile
+		// behind a small socket buffer; once it reads again every request must
+		// have its answer
+		p.SetKnob("deaf", 1)
+		p.SetKnob("parsub", r.Pick(1, 2))
+		p.SetKnob("parpub", r.Pick(1, 2))
+		p.Items = p.Items[:1]
+		for i, k := 0, r.Range(6, 30); i < k; i++ {
+			p.Items = append(p.Items, genPkt(r, r.Pick(int(packet.PINGREQ), int(packet.PINGREQ), int(packet.SUBSCRIBE), int(packet.UNSUBSCRIBE))))
+		}
 	}
 	return []*core.Plan{p}
 }
@@ -170,7 +185,7 @@ func runC20(t *testing.T, p *core.Plan) *core.Result {
 	res := &core.Result{Check: "C20", Seed: p.Seed}
 	cfg := DefaultConfig()
 	cfg.Chunk = p.Knob("chunk", 0)
-	cfg.ParPublishes, cfg.ParSubscribes = 64, p.Knob("parsub", 64)
+	cfg.ParPublishes, cfg.ParSubscribes = p.Knob("parpub", 64), p.Knob("parsub", 64)
 	if p.Knob("parsub", 0) > 0 {
 		cfg.TokenTimeout = 2 * time.Second
 	}
@@ -181,6 +196,13 @@ func runC20(t *testing.T, p *core.Plan) *core.Result {
 	var w *World
 	ptxt := core.Bubble(t, p.Seed, p.Yield, func() {
 		w = NewWorld(cfg, p.Seed, res)
+		switch p.Knob("bkfail", 0) {
+		case 1:
+			w.BkFail["Setup"] = 1
+		case 2:
+			w.BkFail["Restore"] = 1
+		}
+		deaf := p.Knob("deaf", 0) == 1
 		pr := w.NewPeer("c20")
 		var sent []packet.Generic
 		for _, it := range p.Items {
@@ -196,11 +218,23 @@ func runC20(t *testing.T, p *core.Plan) *core.Result {
 			pk := mkC20Packet(it, creds)
 			sent = append(sent, pk)
 			pr.Send(pk)
-			if p.Knob("pipeline", 1) == 0 {
+			if deaf && len(sent) == 1 {
+				// connected: from now on the peer reads nothing until the burst is out
+				w.Settle()
+				pr.Link.B2A.Cap = 8
+				pr.Stalled = true
+				res.Count("deaf_bursts", 1)
+				continue
+			}
+			if p.Knob("pipeline", 1) == 0 && !deaf {
 				w.Settle()
 			}
 		}
 		w.Settle()
+		if deaf {
+			pr.Stalled = false
+			w.Settle()
+		}
 		if len(sent) == 0 {
 			w.Advance(cfg.ConnectTimeout + time.Second)
 		}
@@ -292,6 +326,28 @@ func judgeC20(w *World, pr *Peer, sent []packet.Generic, creds bool, res *core.R
 			if k != "Authenticate" {
 				res.Violate("C20", "C20.auth", "backend-"+k, "after failed authentication the broker still called "+k+": "+desc())
 			}
+		}
+		return
+	}
+	if bf := w.BkFail["Setup"] + 2*w.BkFail["Restore"]; bf != 0 {
+		// the backend failed during set-up: the connection is closed, Setup
+		// failing means no CONNACK at all, Restore failing exactly the accepting
+		// one; nothing that was pipelined behind the CONNECT is acted upon
+		res.Count("backend_failed_during_setup", 1)
+		res.Nontrivial = true
+		if !pr.EOF {
+			res.Violate("C20", "C20.setup-failure", "not-closed", "the backend failed during set-up but the connection stays open: "+desc())
+		}
+		wantAcks := 0
+		if bf == 2 {
+			wantAcks = 1
+		}
+		if connacks != wantAcks || len(recv) != wantAcks {
+			res.Violate("C20", "C20.setup-failure", fmt.Sprintf("replies-%d", bf), fmt.Sprintf("expected %d CONNACK and nothing else after the backend failed during set-up: %s", wantAcks, desc()))
+		}
+		// (a Publish call may be the connection's own will, owed once Setup had accepted it)
+		if calls["Subscribe"]+calls["Unsubscribe"] > 0 {
+			res.Violate("C20", "C20.setup-failure", "processed", "requests were processed although the set-up failed: "+desc())
 		}
 		return
 	}
